@@ -124,13 +124,12 @@ pub fn rule_events_near(rule: &RuleSpec, unix: i64) -> Vec<i64> {
     out
 }
 
-/// Unix time of a Unix-leap time, given the leap table. None at the leap records themselves.
+/// Unix time of a Unix-leap time, given the leap table. A count that is itself a leap record is the
+/// inserted second: it shares the UTC value of the second that follows it (count t+1 under the new
+/// correction = count t under the previous one), so a record applies strictly after its own count.
 pub fn leap_to_unix(leaps: &[(i64, i32)], t: i64) -> Option<i64> {
     let mut corr = 0i64;
     for (lt, c) in leaps {
-        if *lt == t {
-            return None;
-        }
         if *lt < t {
             corr = *c as i64;
         }
